@@ -210,7 +210,9 @@ ReqShapes == {"nilAttributes", "nilRequest", "nilHttp", "nilHeaders", "emptyPath
               "pathOnlyQuery", "pathOnlyFragment", "pathHuge", "pathBinary", "pathPctBad", "hostWithPort", "hostOdd", "queryFieldSet", "methodOdd"}
 BodyClasses == {"null", "array", "string", "number", "bool", "empty", "emptyObject", "truncated", "notjson", "wrongTypesNum", "wrongTypesNull",
                 "wrongTypesObj", "hugeNumber", "hugeInt", "negative", "floatExp", "nested", "noIdToken", "emptyIdToken", "idTokenTwoDots",
-                "idTokenJSONPayloadArray", "idTokenClaimsOddTypes", "idTokenExpHuge", "bom", "dupKeys"}
+                "idTokenJSONPayloadArray", "idTokenClaimsOddTypes", "idTokenExpHuge", "bom", "dupKeys",
+                \* the genuine answer (real tokens, registered as secrets) made undecodable: what an error message may tempt a service to echo
+                "minted-expStr", "minted-trailing", "minted-expFloat", "minted-typeArr", "minted-bareClaims", "minted-jsonJws"}
 C15Space == [what : {"request"}, shape : ReqShapes, kind : {"app", "callback", "logout"}, sess : {"none", "valid"}]
             \cup [what : {"body"}, shape : BodyClasses, kind : {"login", "refresh"}, sess : {"valid"}]
             \cup [what : {"claims"}, shape : {"nonceNonString", "nonceEmpty", "audAbsent", "audNearMiss", "garbage", "nestedJws", "sigStripped"},
